@@ -125,13 +125,13 @@ var enumHelpers = map[string]struct {
 	max int
 	f   func(v int)
 }{
-	"flv.TagType.String":          {255, func(v int) { _ = flv.TagType(v).String() }},
-	"flv.AudioFrameTrait.String":  {255, func(v int) { _ = flv.AudioFrameTrait(v).String() }},
-	"flv.AudioChannels.String":    {255, func(v int) { _ = flv.AudioChannels(v).String() }},
-	"flv.AudioChannels.From":      {255, func(v int) { var c flv.AudioChannels; c.From(aac.Channels(v)); _ = c.String() }},
-	"flv.AudioSampleBits.String":  {255, func(v int) { _ = flv.AudioSampleBits(v).String() }},
-	"flv.AudioSamplingRate.String": {255, func(v int) { _ = flv.AudioSamplingRate(v).String() }},
-	"flv.AudioSamplingRate.ToHz":  {255, func(v int) { _ = flv.AudioSamplingRate(v).ToHz() }},
+	"flv.TagType.String":             {255, func(v int) { _ = flv.TagType(v).String() }},
+	"flv.AudioFrameTrait.String":     {255, func(v int) { _ = flv.AudioFrameTrait(v).String() }},
+	"flv.AudioChannels.String":       {255, func(v int) { _ = flv.AudioChannels(v).String() }},
+	"flv.AudioChannels.From":         {255, func(v int) { var c flv.AudioChannels; c.From(aac.Channels(v)); _ = c.String() }},
+	"flv.AudioSampleBits.String":     {255, func(v int) { _ = flv.AudioSampleBits(v).String() }},
+	"flv.AudioSamplingRate.String":   {255, func(v int) { _ = flv.AudioSamplingRate(v).String() }},
+	"flv.AudioSamplingRate.ToHz":     {255, func(v int) { _ = flv.AudioSamplingRate(v).ToHz() }},
 	"flv.AudioSamplingRate.OpusToHz": {255, func(v int) { _ = flv.AudioSamplingRate(v).OpusToHz() }},
 	"flv.AudioSamplingRate.From": {255, func(v int) {
 		var r flv.AudioSamplingRate
